@@ -90,6 +90,9 @@ Section Q.
   Definition quat_normalize_to (q : Quat F) (m : F) : Quat F := quat_mul_s q (m / quat_magnitude q).
   Definition quat_normalize (q : Quat F) : Quat F := quat_normalize_to q 1.
   Definition quat_distance (a b : Quat F) : F := sqrt T (quat_distance2 a b).
+  (* InnerSpace defaults: angle = acos(dot / (|a| |b|)); project_on = other * (dot / other.magnitude2()) *)
+  Definition quat_angle (a b : Quat F) : F := acos T (quat_dot a b / (quat_magnitude a * quat_magnitude b)).
+  Definition quat_project_on (a b : Quat F) : Quat F := quat_mul_s b (quat_dot a b / quat_magnitude2 b).
 
   (* From<Matrix3> for Quaternion: four branches *)
   Definition quat_of_m3 (m : M3 F) : Quat F :=
